@@ -9,7 +9,7 @@
 (*     HTTP domain d1 (owner B)                                                               *)
 (* so that the actor is, per object, unauthenticated / owner / other party / stranger.        *)
 (*                                                                                            *)
-(* Cmd(ty, pt, cl, obj) models SessionManager.handleCommandPacket: the special cases          *)
+(* Cmd(ty, pt, cl, bf, obj) models SessionManager.handleCommandPacket: the special cases          *)
 (* (SOCKS5 tunnel request, DNS resolve / query, traffic report, disconnect, proxy response)   *)
 (* and CommandExecutor.Execute -> handler for the registered types.  Every handler derives     *)
 (* the caller from the connection (executor.createCommandContext / handlers' getClientID /     *)
@@ -29,6 +29,12 @@
 EXTENDS Naturals, Sequences, FiniteSets, Json, CommandsPolicy
 
 CONSTANTS Sets,     \* row sets driven: {"server", "special"} or {"library"}
+          WVs,      \* world variants explored: states of the named objects when the behaviour starts
+                    \*   "base"     m1 active, k1 fresh, d1 active
+                    \*   "expired"  m1 / k1 / d1 past their expiry but still stored
+                    \*   "revoked"  m1 revoked, k1 revoked
+                    \*   "inactive" m1 and d1 switched to status inactive
+                    \* (k0, the code that created m1, is always there as the "already activated" code)
           Fixes,    \* see above
           MaxCmds,  \* commands on c1
           RespToo,  \* TRUE: registered types are also sent in CommandResp packets (the executor does not look)
@@ -42,7 +48,7 @@ AllFixes == {"trafficParty", "dnsAuth", "domainAuth", "notifyAuth"}
 
 VARIABLES cn,     \* c1: [auth, typ, reg, pend (challenge pending for whom), failed, alive]
           ctl,    \* client -> "v" (its own control connection) | "c1": who holds the client-id index entry
-          st,     \* store: [m1, m2, k1by, gen, d1, d2, tr]
+          st,     \* store: [wv, m1, m2, k1by, gen, d1, d2, tr]
           ncmd,
           log,    \* ghost: effects [ty, auth, e] of the latest command (the invariants are evaluated after every command)
           outs,   \* ghost: [ty, auth, out] of the latest command
@@ -84,9 +90,10 @@ Outcome(s, a, rg, ty0, obj) ==
     [] ty = "ConnectionCodeGenerate" ->
          IF a = None THEN Fail(s) ELSE R("ok", {E("add", "g" \o a, {a}, a, None)}, [s EXCEPT !.gen = @ \cup {a}])
     [] ty = "ConnectionCodeList" ->
-         IF a = None THEN Fail(s) ELSE R("ok", {E("ret", k, {a}, a, None) : k \in CodesOf(s, a)}, s)
+         \* an expired, never activated code is not listed (the service also deletes it, asynchronously: not modelled)
+         IF a = None THEN Fail(s) ELSE R("ok", {E("ret", k, {a}, a, None) : k \in CodesOf(s, a) \ (IF s.wv = "expired" THEN {"k1"} ELSE {})}, s)
     [] ty = "ConnectionCodeActivate" ->
-         IF a = None \/ obj # "k1" \/ s.k1by # None \/ s.m2 # None THEN Fail(s)
+         IF a = None \/ obj # "k1" \/ s.k1by # None \/ s.m2 # None \/ s.wv \in {"expired", "revoked"} THEN Fail(s)   \* k0: already used
          ELSE R("ok", {E("add", "m2", {a, "B"}, a, None), E("mod", "k1", {"B"}, a, None)}, [s EXCEPT !.m2 = a, !.k1by = a])
     [] ty = "MappingGet" ->
          IF a = None \/ obj \notin Present(s) THEN Fail(s)
@@ -125,7 +132,7 @@ Outcome(s, a, rg, ty0, obj) ==
          THEN (IF Fixed("dnsAuth") /\ a = None THEN Fail(s)
                ELSE R(IF rg THEN "ok" ELSE "fail",                                        \* the answer is relayed only to a registered connection
                       {E("deliv", "dns", {Victim(a)}, IF Fixed("dnsAuth") THEN a ELSE NoId, Victim(a))}, s))  \* deviation: target taken from the packet, caller never looked at
-         ELSE (IF a = None \/ MapsOf(s, a) = {} THEN Fail(s)
+         ELSE (IF a = None \/ {m \in MapsOf(s, a) : ~(m = "m1" /\ s.wv \in {"inactive", "revoked"})} = {} THEN Fail(s)   \* default target: an ACTIVE socks mapping (revoking makes it inactive)
                ELSE R("ok", {E("deliv", "dns", {"B"}, a, "B")}, s))                       \* default target: target client of the caller's own mapping
     [] ty = "SendNotifyToClient" ->
          IF a = None /\ Fixed("notifyAuth") THEN Fail(s)
@@ -147,18 +154,26 @@ PTs(t) == IF IsResp(t) THEN {"resp"}
           ELSE IF RespToo /\ Policy[t].set # "special" THEN {"cmd", "resp"} ELSE {"cmd"}
 ObjsFor(s, t0) == LET t == Base(t0) IN
   CASE t \in {"MappingGet", "MappingDelete", "SOCKS5TunnelRequestCmd", "TunnelTrafficReport"} -> Present(s) \cup {"m1", "absent"}
-    [] t = "ConnectionCodeActivate" -> {"k1", "absent"}
+    [] t = "ConnectionCodeActivate" -> {"k1", "k0", "absent"}
     [] t = "HTTPDomainDelete" -> Doms(s) \cup {"d1", "absent"}
     [] t \in {"DNSResolve", "DNSQuery"} -> {"explicit", "default"}
     [] t = "SendNotifyToClient" -> {"explicit"}
     [] OTHER -> {"none"}
-\* claimed identity fields only travel to the driver (no handler reads them): enumerated when behaviours are emitted
-Claims == IF Emit THEN {"absent", "own", "victim"} ELSE {"absent"}
+\* claimed identity fields only travel to the driver (no handler reads them for a decision): enumerated when
+\* behaviours are emitted, for the rows that carry a demand, in the base world.  <<envelope, body>>:
+\*   envelope = SenderId / ReceiverId / Token of the CommandPacket
+\*   body     = client-id fields inside the JSON body (target_client_id of the tunnel request, and client_id /
+\*              listen_client_id / sender_client_id / owner_client_id / user_id on every request)
+\*   "own" = the caller's id, "victim" = another party, "third" = a client that is neither
+ClaimPairs(s, t) == IF Emit /\ Policy[t].need /\ s.wv = "base"
+                    THEN {<<"absent", "absent">>, <<"own", "absent">>, <<"victim", "absent">>,
+                          <<"absent", "own">>, <<"absent", "third">>, <<"absent", "victim">>, <<"victim", "victim">>}
+                    ELSE {<<"absent", "absent">>}
 
 HistClass == IF cn.auth = None THEN (IF ~cn.reg THEN "fresh" ELSE IF cn.pend # None THEN "challenged" ELSE "failed")
              ELSE cn.typ \o (IF cn.pend # None THEN "+challenged" ELSE IF cn.failed THEN "+failedReauth" ELSE "")
 
-Out(h) == IF Emit THEN PrintT("BEH " \o ToJson([reg |-> IF "library" \in Sets THEN "library" ELSE "server", steps |-> h])) ELSE TRUE
+Out(h) == IF Emit THEN PrintT("BEH " \o ToJson([reg |-> IF "library" \in Sets THEN "library" ELSE "server", wv |-> st.wv, steps |-> h])) ELSE TRUE
 
 \* ------------------------------------------------------------------------------------------
 \* handshake messages on c1 (HandleHandshake; Session.tla has the full machine)
@@ -180,12 +195,12 @@ P2(X, r, t) ==
   /\ hist' = Append(hist, [op |-> "Hs", k |-> "P2", id |-> X, resp |-> r, type |-> t])
   /\ UNCHANGED <<st, ncmd, log, outs>>
 
-Cmd(ty, pt, cl, obj) ==
+Cmd(ty, pt, cl, bf, obj) ==
   /\ cn.alive /\ ncmd < MaxCmds
   /\ ~(ty = "ConnectionCodeGenerate" /\ cn.auth \in st.gen)
   /\ ~(ty = "HTTPDomainCreate" /\ st.d2 # None)
   /\ LET r == Outcome(st, cn.auth, cn.reg, ty, obj)
-         h == Append(hist, [op |-> "Cmd", ty |-> ty, pt |-> pt, claims |-> cl, obj |-> obj, hc |-> HistClass,
+         h == Append(hist, [op |-> "Cmd", ty |-> ty, pt |-> pt, claims |-> cl, bf |-> bf, obj |-> obj, hc |-> HistClass,
                             exp |-> [out |-> r.out, effs |-> r.effs]])
      IN /\ st' = r.s
         /\ log' = {[ty |-> ty, auth |-> cn.auth, e |-> e] : e \in r.effs}
@@ -203,12 +218,12 @@ PolicyOut == IF Emit THEN PrintT("BEH " \o ToJson([policy |-> [t \in Types |-> P
 Init ==
   /\ cn = [auth |-> None, typ |-> None, reg |-> FALSE, pend |-> None, failed |-> FALSE, alive |-> TRUE]
   /\ ctl = [X \in Clients |-> "v"]
-  /\ st = [m1 |-> TRUE, m2 |-> None, k1by |-> None, gen |-> {}, d1 |-> TRUE, d2 |-> None, tr |-> [m \in {"m1", "m2"} |-> 0]]
+  /\ \E w \in WVs : st = [wv |-> w, m1 |-> TRUE, m2 |-> None, k1by |-> None, gen |-> {}, d1 |-> TRUE, d2 |-> None, tr |-> [m \in {"m1", "m2"} |-> 0]]
   /\ ncmd = 0 /\ log = {} /\ outs = {} /\ hist = <<>>
   /\ PolicyOut
 
 Next == \/ \E X \in Clients, t \in {"control", "tunnel"} : P1(X, t) \/ \E r \in {"valid", "garbage"} : P2(X, r, t)
-        \/ \E ty \in Rows : \E pt \in PTs(ty), cl \in Claims, obj \in ObjsFor(st, ty) : Cmd(ty, pt, cl, obj)
+        \/ \E ty \in Rows : \E pt \in PTs(ty), cp \in ClaimPairs(st, ty), obj \in ObjsFor(st, ty) : Cmd(ty, pt, cp[1], cp[2], obj)
 Spec == Init /\ [][Next]_vars
 
 \* ------------------------------------------------------------------------------------------
